@@ -123,6 +123,15 @@ func (f *simFile) mkVersion(t *Tape, kind string) simVersion {
 		case "valid":
 			return simVersion{Kind: kind, Valid: true, Names: []string{name}, Content: fmt.Sprintf("{\"id\": %d, \"name\": %q}", f.Serial, name)}
 		case "syntax":
+			switch f.Serial % 3 {
+			case 1:
+				// a complete document followed by left-overs of a longer one that was
+				// overwritten in place: not a JSON document
+				return simVersion{Kind: kind, Content: fmt.Sprintf("{\"id\": %d, \"name\": %q}e\": \"old\"}", f.Serial, name)}
+			case 2:
+				// two documents in one file (an appended copy, a merge left-over)
+				return simVersion{Kind: kind, Content: fmt.Sprintf("{\"id\": %d, \"name\": %q}\n{\"id\": %d, \"name\": %q}", f.Serial, name, f.Serial+1, name+"x")}
+			}
 			return simVersion{Kind: kind, Content: fmt.Sprintf("{\"id\": %d, \"name\": %q", f.Serial, name)}
 		case "type":
 			return simVersion{Kind: kind, Content: fmt.Sprintf("{\"id\": \"x\", \"name\": [%q]}", name)}
@@ -214,6 +223,10 @@ func tornCut(t *Tape, format, content string) int {
 	case "json":
 		if len(content) < 3 {
 			return 0
+		}
+		// (a content with something after its first complete object is cut inside that object)
+		if i := strings.Index(content, "}"); i >= 2 && i < len(content)-1 {
+			return 1 + t.Choose(i-1)
 		}
 		return 1 + t.Choose(len(content)-2)
 	case "opl":
